@@ -373,10 +373,14 @@ def evaluate(case):
             if idx < len(body):
                 it = body[idx]
                 kind = it[1] if it[0] == 'R' else it[0]
+                unpadded = a
                 if T.pad and kind != 'GAP' and T.wordsized(kind) and (a & 1):
                     a += 1          # pad byte (emitted as 0 or reserved)
+                # manual (PADDING): the label on the line itself and a label alone on the line IMMEDIATELY before read the
+                # padded address; label-only lines further up keep the unpadded one
+                alone = [i for i in here if not case['att'][i]]
                 for i in here:
-                    labaddr[i] = a
+                    labaddr[i] = unpadded if (i in alone[:-1]) else a
                 if it[0] == 'GAP':
                     a += it[1]
                 else:
